@@ -19,8 +19,14 @@ def gen_fn(r, v, weights):
         req = {"cmd": "set", "id": tid, "piped": True, "body_stdin": False, "flags": {},
                "json": r.weighted([({"state": "done"}, 30), ({"state": "canceled"}, 10), ({"state": "todo"}, 30),
                                    ({"epic": r.pick(v.epics) if v.epics else ""}, 30)])}
-    if req["cmd"] == "sequence" and r.p(45) and len(v.epics) >= 2:
+    if req["cmd"] == "sequence" and r.p(45) and len(v.epics) >= 2 and getattr(v, "epic_edges", True):
         req["args"] = [r.pick(v.epics), r.pick(v.epics)]
+    elif req["cmd"] == "sequence" and req.get("args") and req["args"][0] != "rm" and r.p(40):
+        # try to close a loop through work that already exists (finished tasks included: they can be reopened)
+        edges = [(t["id"], d) for t in v.by_id.values() if not t["is_epic"] for d in t.get("deps", [])]
+        if edges:
+            a, b = r.pick(edges)
+            req["args"] = [a, b]
     return req, agent
 
 
@@ -88,7 +94,13 @@ def run(ctx):
         c06.probe_setev_diffs(ctx, res["diffs"], oracle_fn=oracle)
     r = gen.Rng(ctx.seed * 1000003 + 15)
     for h in range(25 if ctx.quick else 400):
-        run_history(ctx, r.fork(), 40, WEIGHTS, oracle, gen_fn=gen_fn)
+        # two histories in three never ask for an epic→epic edge: without those the recorded cross-level finding cannot arise (C15_partial_no_epic_edges),
+        # so the history is not cut short by it and other ways of getting stuck stay visible
+        allow = (h % 3 == 0)
+        def gf(r_, v_, w_, allow=allow):
+            v_.epic_edges = allow
+            return gen_fn(r_, v_, w_)
+        run_history(ctx, r.fork(), 40, WEIGHTS, oracle, gen_fn=gf)
     ctx.cov["rule"] = ("two-level graphs (2–4 epics, tasks inside them, task edges crossing epics, epic→epic edges, epic moves), states driven to todo/done/canceled; "
                        "oracle: cycle search in the effective waits-for relation + premises ⇒ claim must not answer no_ready")
 
